@@ -1,8 +1,10 @@
-/- Line-protocol driver for the C15 model (ForML.Model.Entry).
+/- Line-protocol driver for the C15 model (ForML.Model.Entry); the kind match relation is the one extracted from the
+   live forml classes (ForML.Generated.C15Kinds.liveMatch).
 
   (match (q…) (e…))                                   → (false) | (true none) | (true (i…))
-  (reader legacy|fixed dense|frame NROWS ((n k)…) ((n k)…))
-        entry data = symbolic NROWS × |e| matrix          → missing | index-error | (data dense|frame (col…)…)
+  (reader legacy|fixed dense|frame NROWS ((n k)…) ((n k)…) ((KIND ROW COL)…))
+        entry data = symbolic NROWS × |e| matrix; the last argument lists the cells whose cast to KIND raises
+                                                           → missing | index-error | cast-error | (data dense|frame (col…)…)
         term ::= (c ROW COL) | (k KIND term)
   (take rows|cols dense|frame NCOLS ((int…)…) (idx…))  → index-error | (ok (row…) (col…))
   (slicer dense|frame NCOLS ((int…)…) NFEATURES none|NLABELS)
@@ -10,6 +12,7 @@
 -/
 import ForML.Model.Sexp
 import ForML.Model.Entry
+import ForML.Generated.C15Kinds
 open ForML ForML.Entry
 
 inductive Term where
@@ -28,6 +31,17 @@ def kind? : Sexp → Option Kind
 def Term.toSexp : Term → Sexp
   | .cell r c => .list [.atom "c", Sexp.ofNat r, Sexp.ofNat c]
   | .cast k t => .list [.atom "k", .atom (kindName k), t.toSexp]
+
+/-- the symbolic value cast: `cast k (cell r c)` raises exactly for the listed `(k, r, c)` -/
+def castSym (bad : List (Kind × Nat × Nat)) (k : Kind) : Term → Option Term
+  | .cell r c => if bad.contains (k, r, c) then none else some (.cast k (.cell r c))
+  | t => some (.cast k t)
+
+def bad? : Sexp → Option (List (Kind × Nat × Nat))
+  | .list xs => xs.mapM fun
+    | .list [k, r, c] => do pure (← kind? k, ← r.nat?, ← c.nat?)
+    | _ => none
+  | _ => none
 
 def field? : Sexp → Option Field
   | .list [n, k] => do pure ⟨← n.nat?, ← kind? k⟩
@@ -60,19 +74,20 @@ def stepC15 : Sexp → Sexp
       | (true, none) => .list [.atom "true", .atom "none"]
       | (true, some idx) => .list [.atom "true", Sexp.ofNats idx]
     | _, _ => .atom "bad-op"
-  | .list [.atom "reader", variant, impl, nrows, q, e] =>
+  | .list [.atom "reader", variant, impl, nrows, q, e, bad] =>
     let legacy? : Option Bool := match variant with
       | .atom "legacy" => some true | .atom "fixed" => some false | _ => none
-    match legacy?, impl? impl, nrows.nat?, fields? q, fields? e with
-    | some legacy, some dense, some nrows, some q, some e =>
+    match legacy?, impl? impl, nrows.nat?, fields? q, fields? e, bad? bad with
+    | some legacy, some dense, some nrows, some q, some e, some bad =>
       let rows := (List.range nrows).map (fun r => (List.range e.length).map (fun c => Term.cell r c))
-      match readerCall Term.cast legacy q e (mkTab dense e.length rows) with
+      match readerCall ForML.Generated.C15Kinds.liveMatch (castSym bad) legacy q e (mkTab dense e.length rows) with
       | .missing => .atom "missing"
       | .indexError => .atom "index-error"
+      | .castError => .atom "cast-error"
       | .data t =>
         let tag := match t with | .dense _ => "dense" | .frame _ => "frame"
         .list [.atom "data", .atom tag, ofMatrix Term.toSexp t.toColumns]
-    | _, _, _, _, _ => .atom "bad-op"
+    | _, _, _, _, _, _ => .atom "bad-op"
   | .list [.atom "take", axis, impl, ncols, rows, idx] =>
     let rowsAxis? : Option Bool := match axis with
       | .atom "rows" => some true | .atom "cols" => some false | _ => none
